@@ -447,4 +447,264 @@ Section WF.
     exists st. split; [exact Hi|]. unfold WFt, abs_st. rewrite Hr, Hd.
     destruct (init_tree_wf p1 p2) as [H1 H2]. repeat split; auto.
   Qed.
+
+  (* ---------- DeleteBelow ---------- *)
+  Definition dbf (ts v : N) : N := if v <? ts then 0 else v.
+
+  Lemma wf_lower :
+    (forall cap lo hi t, wf cap lo hi t -> forall lo2, lo2 <= lo -> wf cap lo2 hi t) /\
+    (forall lo hi cs, wf_kids lo hi cs -> forall lo2, lo2 <= lo -> cs <> [] -> wf_kids lo2 hi cs).
+  Proof.
+    apply wf_mutind.
+    - intros cap lo hi pid es Hs Hne Hmk Hlen lo2 Hle. constructor; auto. eapply ksorted_weaken; eauto.
+    - intros cap lo hi pid cs Hk IHk Hne Hlen lo2 Hle. constructor; auto.
+    - intros lo lo2 Hle Hne. congruence.
+    - intros lo k c rest hi Hc IHc Hk IHk lo2 Hle _. constructor; auto.
+  Qed.
+
+  Lemma alookup_two lo mid hi X Y k : in_range lo mid X -> in_range mid hi Y ->
+    alookup (X ++ Y) k = if k <=? mid then alookup X k else alookup Y k.
+  Proof.
+    intros HX HY. destruct (N.leb_spec k mid).
+    - apply alookup_app_r. eapply in_range_ne_low; [exact HY|lia].
+    - apply alookup_app_l. eapply in_range_ne_high; [exact HX|lia].
+  Qed.
+
+  Lemma alookup_out_low lo hi X k : in_range lo hi X -> k <= lo -> alookup X k = 0.
+  Proof. intros H Hk. apply alookup_notin. eapply in_range_ne_low; eauto. Qed.
+
+  Section Compact.
+    Variable ts : N.
+    Variable f : nat.
+    Variable rec : alloc -> tree -> option (alloc * tree * nat).
+    Hypothesis Hrec : forall a c cap lo hi, (height c < f)%nat -> wf cap lo hi c ->
+      exists a' c' rem, rec a c = Some (a', c', rem) /\ wf cap lo hi c' /\
+        (forall k, abs c' k = dbf ts (abs c k)) /\ (rem = O -> entries c' = [(hi, 0)]) /\
+        (height c' <= height c)%nat /\ pid_of c' = pid_of c.
+
+    Lemma compact_children_spec : forall cs a lo hi, wf_kids lo hi cs -> cs <> [] -> (hmax cs < f)%nat ->
+      exists a' cs', compact_children rec a cs = Some (a', cs') /\ wf_kids lo hi cs' /\ cs' <> [] /\
+        (length cs' <= length cs)%nat /\ (forall k, alookup (ents cs') k = dbf ts (alookup (ents cs) k)) /\
+        (hmax cs' <= hmax cs)%nat.
+    Proof.
+      induction cs as [|[ck c] rest IH]; intros a lo hi Hk Hne Hh; [congruence|].
+      inversion Hk as [|lo0 k0 c0 rest0 hi0 Hc Hrest]; subst.
+      rewrite hmax_cons in Hh.
+      destruct (Hrec a c _ lo ck ltac:(lia) Hc) as (a1 & c1 & rem & Hr & Hwf1 & Habs1 & Hrem & Hh1 & Hp1).
+      cbn [compact_children]. rewrite Hr.
+      pose proof (wf_range _ _ _ _ Hc) as HrC. pose proof (wf_range _ _ _ _ Hwf1) as HrC1.
+      pose proof (wf_lt _ _ _ _ Hc) as Hlt.
+      destruct rest as [|e rest'].
+      - inversion Hrest; subst. rewrite Bool.andb_false_r. cbn [compact_children].
+        eexists _, _. split; [reflexivity|]. split; [constructor; [exact Hwf1|constructor]|].
+        split; [discriminate|]. split; [cbn; lia|]. split.
+        + intros k. unfold ents. cbn [flat_map snd]. rewrite !app_nil_r. apply Habs1.
+        + rewrite !hmax_cons. cbn [hmax fold_right]. lia.
+      - set (rest := e :: rest') in *.
+        assert (Hne' : rest <> []) by discriminate.
+        pose proof (wfk_range _ _ _ Hrest) as HrR.
+        cbn [negb]. rewrite Bool.andb_true_r.
+        destruct (Nat.eqb_spec rem 0) as [H0|Hn0].
+        + destruct (IH (free_child a1 c1) ck hi Hrest Hne' ltac:(lia)) as (a2 & cs' & Hcc & Hk' & Hne2 & Hlen & Habs & Hhm).
+          fold rest. rewrite Hcc.
+          eexists _, _. split; [reflexivity|]. split; [eapply (proj2 wf_lower); eauto; lia|].
+          split; [exact Hne2|]. split; [cbn [length]; lia|]. split.
+          * intros k. rewrite ents_cons. rewrite (alookup_two lo ck hi _ _ k HrC HrR). rewrite Habs.
+            destruct (N.leb_spec k ck).
+            -- rewrite (alookup_out_low ck hi (ents rest) k HrR) by lia.
+               specialize (Habs1 k). unfold abs in Habs1. rewrite (Hrem H0) in Habs1.
+               rewrite <- Habs1. unfold dbf. cbn. destruct (ck =? k); destruct (0 <? ts); reflexivity.
+            -- reflexivity.
+          * rewrite hmax_cons. lia.
+        + destruct (IH a1 ck hi Hrest Hne' ltac:(lia)) as (a2 & cs' & Hcc & Hk' & Hne2 & Hlen & Habs & Hhm).
+          fold rest. rewrite Hcc.
+          eexists _, _. split; [reflexivity|]. split; [constructor; assumption|].
+          split; [discriminate|]. split; [cbn [length]; lia|]. split.
+          * intros k. rewrite !ents_cons.
+            rewrite (alookup_two lo ck hi _ _ k HrC1 (wfk_range _ _ _ Hk')).
+            rewrite (alookup_two lo ck hi _ _ k HrC HrR).
+            destruct (k <=? ck); [apply Habs1|apply Habs].
+          * rewrite !hmax_cons. lia.
+    Qed.
+  End Compact.
+
+  Lemma tcompact_spec ts f : forall a t cap lo hi, (height t < f)%nat -> wf cap lo hi t ->
+    exists a' t' rem, tcompact f ts a t = Some (a', t', rem) /\ wf cap lo hi t' /\
+      (forall k, abs t' k = dbf ts (abs t k)) /\ (rem = O -> entries t' = [(hi, 0)]) /\
+      (height t' <= height t)%nat /\ pid_of t' = pid_of t.
+  Proof.
+    induction f as [|f IH]; intros a t cap lo hi Hh Hwf; [lia|].
+    inversion Hwf as [cap0 lo0 hi0 pid es Hs Hne Hmk Hlen|cap0 lo0 hi0 pid cs Hkids Hne Hlen]; subst; cbn [tcompact].
+    - destruct (node_compact_spec lo es ts Hs Hne) as (Hs' & Hne' & Hmk' & Hab & Hrem & Hlen').
+      destruct (node_compact es ts) as [es' rem]. cbn [fst snd] in *.
+      eexists _, _, _. split; [reflexivity|]. split; [constructor; auto; lia|]. split; [|split; [|split]]; auto.
+    - rewrite height_node in Hh.
+      destruct (compact_children_spec ts f (tcompact f ts) IH cs a lo hi Hkids Hne ltac:(lia))
+        as (a' & cs' & Hcc & Hk' & Hne' & Hlen' & Habs & Hhm).
+      rewrite Hcc. eexists _, _, _. split; [reflexivity|]. split; [constructor; auto; lia|].
+      split; [|split; [|split]].
+      + intros k. unfold abs. rewrite !entries_node. apply Habs.
+      + intros H0. destruct cs'; [congruence|discriminate].
+      + rewrite !height_node. lia.
+      + reflexivity.
+  Qed.
+
+  Lemma tree_delete_below_spec st ts : WFt st ->
+    exists st', tree_delete_below st ts = Some st' /\ WFt st' /\
+                forall k, abs_st st' k = dbf ts (abs_st st k).
+  Proof.
+    intros [Hwf Hd]. unfold tree_delete_below.
+    match goal with |- context [tcompact ?f ts ?a (root st)] =>
+      destruct (tcompact_spec ts f a (root st) _ _ _ ltac:(lia) Hwf) as (a' & t' & rem & Hc & Hwf' & Habs & _ & Hh & _) end.
+    rewrite Hc. eexists. split; [reflexivity|]. split; [split; cbn [root depth]; auto; lia|exact Habs].
+  Qed.
+
+  (* ---------- IterateKV ---------- *)
+  Definition nz (e : N * N) : bool := negb (snd e =? 0).
+
+  Lemma max_key_map_keys {V W} (g : N * V -> N * W) es : (forall e, fst (g e) = fst e) -> es <> [] ->
+    max_key (map g es) = max_key es.
+  Proof.
+    intros Hg Hne. rewrite (max_key_last 0) by (destruct es; [congruence|discriminate]).
+    rewrite (max_key_last 0 es Hne). apply last_key_map_keys. exact Hg.
+  Qed.
+
+  Section Iter.
+    Variable fn : N -> N -> N.
+
+    Lemma titer_kids_spec f
+      (IH : forall t cap lo hi, (height t < f)%nat -> wf cap lo hi t ->
+              wf cap lo hi (snd (titer f fn t)) /\ (forall k, abs (snd (titer f fn t)) k = upd_val fn k (abs t k)) /\
+              fst (titer f fn t) = filter nz (entries t) /\ height (snd (titer f fn t)) = height t /\
+              pid_of (snd (titer f fn t)) = pid_of t) :
+      forall cs lo hi, wf_kids lo hi cs -> (hmax cs < f)%nat ->
+        let rs := map (fun e => (fst e, titer f fn (snd e))) cs in
+        let cs' := map (fun r => (fst r, snd (snd r))) rs in
+        wf_kids lo hi cs' /\ (forall k, alookup (ents cs') k = upd_val fn k (alookup (ents cs) k)) /\
+        flat_map (fun r => fst (snd r)) rs = filter nz (ents cs) /\ hmax cs' = hmax cs /\ length cs' = length cs.
+    Proof.
+      induction cs as [|[ck c] rest IHcs]; intros lo hi Hk Hh.
+      - inversion Hk; subst. cbn. repeat split; constructor.
+      - inversion Hk as [|lo0 k0 c0 rest0 hi0 Hc Hrest]; subst. rewrite hmax_cons in Hh.
+        destruct (IH c _ lo ck ltac:(lia) Hc) as (Hwf1 & Habs1 & Hvis1 & Hh1 & Hp1).
+        destruct (IHcs ck hi Hrest ltac:(lia)) as (Hk' & Habs & Hvis & Hhm & Hlen).
+        cbn [map fst snd flat_map] in *. cbv zeta in *.
+        split; [constructor; assumption|]. split; [|split; [|split]].
+        + intros k. rewrite !ents_cons.
+          rewrite (alookup_two lo ck hi _ _ k (wf_range _ _ _ _ Hwf1) (wfk_range _ _ _ Hk')).
+          rewrite (alookup_two lo ck hi _ _ k (wf_range _ _ _ _ Hc) (wfk_range _ _ _ Hrest)).
+          destruct (k <=? ck); [apply Habs1|apply Habs].
+        + rewrite ents_cons, filter_app, Hvis1, Hvis. reflexivity.
+        + rewrite !hmax_cons. lia.
+        + cbn [length]. lia.
+    Qed.
+
+    Lemma titer_spec f : forall t cap lo hi, (height t < f)%nat -> wf cap lo hi t ->
+      wf cap lo hi (snd (titer f fn t)) /\ (forall k, abs (snd (titer f fn t)) k = upd_val fn k (abs t k)) /\
+      fst (titer f fn t) = filter nz (entries t) /\ height (snd (titer f fn t)) = height t /\
+      pid_of (snd (titer f fn t)) = pid_of t.
+    Proof.
+      induction f as [|f IH]; intros t cap lo hi Hh Hwf; [lia|].
+      inversion Hwf as [cap0 lo0 hi0 pid es Hs Hne Hmk Hlen|cap0 lo0 hi0 pid cs Hkids Hne Hlen]; subst; cbn [titer fst snd].
+      - split; [|split; [|split; [|split]]]; try reflexivity.
+        + constructor.
+          * apply ksorted_map_keys; [apply iter_entry_fst|exact Hs].
+          * destruct es; [congruence|discriminate].
+          * apply max_key_map_keys; [apply iter_entry_fst|exact Hne].
+          * rewrite map_length. exact Hlen.
+        + intros k. unfold abs. cbn [entries]. apply alookup_iter.
+      - rewrite height_node in Hh.
+        destruct (titer_kids_spec f IH cs lo hi Hkids ltac:(lia)) as (Hk' & Habs & Hvis & Hhm & Hlen').
+        cbv zeta in *.
+        split; [|split; [|split; [|split]]]; try reflexivity.
+        + constructor; [exact Hk'| |lia]. destruct cs; [congruence|discriminate].
+        + intros k. unfold abs. rewrite !entries_node. apply Habs.
+        + rewrite entries_node. exact Hvis.
+        + rewrite !height_node, Hhm. reflexivity.
+    Qed.
+  End Iter.
+
+  Lemma in_sorted_alookup lo es k v : ksorted lo es -> v <> 0 -> (In (k, v) es <-> alookup es k = v).
+  Proof.
+    revert lo. induction es as [|e r IH]; intros lo Hs Hv.
+    - cbn. split; [tauto|congruence].
+    - pose proof (ksorted_tail_gt _ _ _ Hs) as Hgt. destruct Hs as [H1 H2]. cbn [In alookup].
+      destruct (N.eqb_spec (fst e) k) as [Hek|Hne].
+      + split.
+        * intros [He|Hin]; [subst e; reflexivity|].
+          exfalso. unfold keys_gt in Hgt. rewrite Forall_forall in Hgt. apply Hgt in Hin. cbn in Hin. lia.
+        * intros <-. left. destruct e; cbn in *; congruence.
+      + rewrite <- (IH _ H2 Hv). split; [intros [He|Hin]; [subst e; cbn in Hne; congruence|exact Hin]|auto].
+  Qed.
+
+  Lemma tree_iterate_spec st fn : WFt st ->
+    let vis := fst (tree_iterate st fn) in let st' := snd (tree_iterate st fn) in
+    WFt st' /\ (forall k, abs_st st' k = upd_val fn k (abs_st st k)) /\
+    ksorted 0 vis /\ (forall k v, In (k, v) vis <-> (abs_st st k = v /\ v <> 0)).
+  Proof.
+    intros [Hwf Hd]. unfold tree_iterate.
+    destruct (titer_spec fn (S (depth st)) (root st) _ _ _ ltac:(lia) Hwf) as (Hwf' & Habs & Hvis & Hh & _).
+    destruct (titer (S (depth st)) fn (root st)) as [vis r1]. cbn [fst snd] in *.
+    split; [split; cbn [root depth]; [exact Hwf'|lia]|]. split; [exact Habs|].
+    pose proof (wf_sorted _ _ _ _ Hwf) as Hs. subst vis. split; [apply ksorted_filter; exact Hs|].
+    intros k v. rewrite filter_In. unfold nz. cbn [snd]. unfold abs_st, abs.
+    destruct (N.eqb_spec v 0) as [->|Hv]; cbn [negb].
+    - split; [intros [_ H]; discriminate|intros [_ H]; congruence].
+    - rewrite (in_sorted_alookup 0 _ k v Hs Hv). tauto.
+  Qed.
+
+  (* ---------- Reset ---------- *)
+  Lemma tree_reset_spec ps st : exists st', tree_reset M ps st = Some st' /\ WFt st' /\ forall k, abs_st st' k = 0.
+  Proof. unfold tree_reset, tree_reset_buf. apply init_root_wf. Qed.
+  Lemma tree_new_mem_spec ps : exists st, tree_new_mem M ps = Some st /\ WFt st /\ forall k, abs_st st k = 0.
+  Proof. unfold tree_new_mem, tree_reset_buf. apply init_root_wf. Qed.
+  Lemma tree_new_file_spec ps : exists st, tree_new_file M ps = Some st /\ WFt st /\ forall k, abs_st st k = 0.
+  Proof. unfold tree_new_file. apply init_root_wf. Qed.
+
+  (* ---------- histories ---------- *)
+  Inductive op := OSet (k v : N) | ODeleteBelow (ts : N) | OIterate (fn : N -> N -> N) | OReset.
+
+  Definition op_ok (o : op) : Prop := match o with OSet k _ => valid_key k | _ => True end.
+
+  Definition step ps (st : tstate) (o : op) : option tstate :=
+    match o with
+    | OSet k v => tree_set M ps st k v
+    | ODeleteBelow ts => tree_delete_below st ts
+    | OIterate fn => Some (snd (tree_iterate st fn))
+    | OReset => tree_reset M ps st
+    end.
+  Definition run ps (ops : list op) (st : tstate) : option tstate :=
+    fold_left (fun s o => match s with Some s => step ps s o | None => None end) ops (Some st).
+
+  (* the reference: a total map N -> N with 0 = absent *)
+  Definition ref_step (m : N -> N) (o : op) : N -> N :=
+    match o with
+    | OSet k v => fun k' => if k' =? k then v else m k'
+    | ODeleteBelow ts => fun k => dbf ts (m k)
+    | OIterate fn => fun k => upd_val fn k (m k)
+    | OReset => fun _ => 0
+    end.
+  Definition ref_run (ops : list op) (m : N -> N) : N -> N := fold_left ref_step ops m.
+
+  Lemma run_none ps ops : fold_left (fun s o => match s with Some s => step ps s o | None => None end) ops None = None.
+  Proof. induction ops; cbn; auto. Qed.
+
+  Lemma history_spec ps ops : forall st m, WFt st -> (forall k, abs_st st k = m k) -> Forall op_ok ops ->
+    exists st', run ps ops st = Some st' /\ WFt st' /\ forall k, abs_st st' k = ref_run ops m k.
+  Proof.
+    induction ops as [|o ops IH]; intros st m Hwf Habs Hok.
+    - exists st. split; [reflexivity|]. split; [exact Hwf|exact Habs].
+    - inversion Hok as [|o' ops' Ho Hops]; subst. unfold run, ref_run. cbn [fold_left].
+      assert (Hstep : exists st1, step ps st o = Some st1 /\ WFt st1 /\ forall k, abs_st st1 k = ref_step m o k).
+      { destruct o as [k v|ts|fn|]; cbn [step ref_step op_ok] in *.
+        - destruct (tree_set_spec ps st k v Hwf Ho) as (st1 & H1 & H2 & H3). exists st1. split; [exact H1|]. split; [exact H2|].
+          intros k'. rewrite H3, Habs. reflexivity.
+        - destruct (tree_delete_below_spec st ts Hwf) as (st1 & H1 & H2 & H3). exists st1. split; [exact H1|]. split; [exact H2|].
+          intros k'. rewrite H3, Habs. reflexivity.
+        - destruct (tree_iterate_spec st fn Hwf) as (H2 & H3 & _). eexists. split; [reflexivity|]. split; [exact H2|].
+          intros k'. rewrite H3, Habs. reflexivity.
+        - destruct (tree_reset_spec ps st) as (st1 & H1 & H2 & H3). exists st1. split; [exact H1|]. split; [exact H2|exact H3]. }
+      destruct Hstep as (st1 & Hs & Hwf1 & Habs1). rewrite Hs.
+      apply (IH st1 (ref_step m o) Hwf1 Habs1 Hops).
+  Qed.
 End WF.
